@@ -74,6 +74,7 @@ def plan(tier):
     units += [('family', tier, i) for i in range(len(FAMILY))]
     units += [('props', tier, i) for i in range(len(PROPERTIES))]
     units += [('api', tier, i) for i in range(6)]
+    units += [('twins', tier, i) for i in range(len(TWIN_BUILDERS))]
     return units
 
 
@@ -401,6 +402,71 @@ def api_bases(i):
     return A.HplQuantifier('forall', 'i', f, A.HplBinaryOperator('=', A.HplVarReference('@i'), v)), 'forall i in fld: @i = @v'
 
 
+TWIN_BUILDERS = ['x', '@A.x', '@v', 'xs[0]', 'xs[@i]', 'm.f', 'x + y', '{x, 1}', '[0 to x]', 'abs(x)', 'not p', 'forall i in xs: @i > x', '1', '"a"']
+
+
+def twins(i, r):
+    """Histories of length 2 over two equal, separately built nodes that carry different metadata: a call on
+    the first, then a call on the second; nothing obtained earlier may change, and a cast result carries a copy
+    of the metadata of the node it was made from."""
+    import hpl.ast as A
+
+    text = TWIN_BUILDERS[i]
+    problems = []
+
+    def fresh(tag):
+        # a parse of its own: on the unchanged tree no object is shared with anything built before
+        n = impl.parser('expr').parse(text)
+        n.metadata['src'] = tag
+        return n
+
+    def menu(n):
+        ops = [(f'cast({name})', lambda t=t: n.cast(t)) for name, t in _cast_types()]
+        one = A.HplLiteral('1', 1)
+        ops += [
+            ('HplUnaryOperator(-, n)', lambda: A.HplUnaryOperator('-', n)), ('HplUnaryOperator(not, n)', lambda: A.HplUnaryOperator('not', n)),
+            ('HplBinaryOperator(=, n, 1)', lambda: A.HplBinaryOperator('=', n, one)), ('HplBinaryOperator(<, 1, n)', lambda: A.HplBinaryOperator('<', one, n)),
+            ('HplBinaryOperator(and, n, n)', lambda: A.HplBinaryOperator('and', n, n)), ('HplSet((n, 1))', lambda: A.HplSet((n, one))), ('HplRange(1, n)', lambda: A.HplRange(one, n)),
+            ('HplArrayAccess(n, 1)', lambda: A.HplArrayAccess(n, one)), ('HplFieldAccess(n, f)', lambda: A.HplFieldAccess(n, 'f')), ('HplFunctionCall(len, n)', lambda: A.HplFunctionCall('len', (n,))),
+            ('HplFunctionCall(abs, n)', lambda: A.HplFunctionCall('abs', (n,))), ('HplQuantifier(forall i in n)', lambda: A.HplQuantifier('forall', 'i', n, A.HplBinaryOperator('>', A.HplVarReference('@i'), one))),
+            ('predicate_from_expression(n)', lambda: A.predicate_from_expression(n)), ('but(metadata)', lambda: n.but(metadata={'fresh': 1})),
+        ]
+        return ops
+
+    n_ops = len(menu(fresh('probe')))
+    for i1 in range(n_ops):
+        for i2 in range(n_ops):
+            a, b = fresh('a'), fresh('b')
+            r.count('states')
+            name1, f1 = menu(a)[i1]
+            name2, f2 = menu(b)[i2]
+            held = [('first node', a), ('second node', b)]
+            before = [snap(o) for _, o in held]
+            for who, (name, fn, src) in (('first', (name1, f1, a)), ('second', (name2, f2, b))):
+                r.count('transitions')
+                try:
+                    res = fn()
+                except Exception as e:  # noqa: BLE001
+                    r.outcomes[f'twins:{type(e).__name__}'] += 1
+                    res = None
+                after = [snap(o) for _, o in held]
+                for (what_, _o), s0, s1 in zip(held, before, after):
+                    if s0 != s1:
+                        which = 'metadata' if s0[0] == s1[0] and s0[2] == s1[2] else 'structure, stored types or hash'
+                        problems.append((f'{name.split("(")[0]} on an equal twin changed the {which} of an object obtained earlier', f'twins of «{text}»: {name1} on the first, {name2} on the second: {what_} changed after the call on the {who} ({s0[1][:2]} -> {s1[1][:2]})'))
+                if res is not None and is_ast(res):
+                    if name.startswith('cast') and res is not src:
+                        m = object.__getattribute__(res, 'metadata')
+                        if dict(m) != dict(src.metadata):
+                            problems.append(('cast result does not carry a copy of the metadata of its source', f'twins of «{text}»: {name} on the {who}: {dict(m)} vs {dict(src.metadata)}'))
+                        if m is src.metadata:
+                            problems.append(('cast result shares the metadata dictionary of its source', f'twins of «{text}»: {name} on the {who}'))
+                    held.append((f'result of {name} on the {who}', res))
+                    after.append(snap(res))
+                before = after
+    return problems
+
+
 def run(unit):
     r = Result()
     what, tier = unit[0], unit[1]
@@ -447,6 +513,11 @@ def run(unit):
             for p in equality_ignores_metadata('prop', text):
                 probs.append((p, {'kind': 'prop', 'text': text, 'depth': 0}, len(text)))
         r.sample({'base': text})
+    elif what == 'twins':
+        r.count('evaluations')
+        for p in twins(unit[2], r):
+            probs.append((p, {'twins': unit[2]}, 3))
+        r.sample({'twins': TWIN_BUILDERS[unit[2]]})
     else:
         r.count('evaluations')
         obj, label = api_bases(unit[2])
@@ -464,6 +535,8 @@ def run(unit):
 def replay(w):
     r = Result()
     mt = msg_types_for()
+    if 'twins' in w:
+        return [{'sig': k, 'detail': d} for k, d in twins(w['twins'], r)]
     if 'api' in w:
         obj, label = api_bases(w['api'])
     else:
@@ -478,7 +551,7 @@ def replay(w):
 def describe(tier):
     b = bounds(tier)
     return {
-        'rule': f"bases: parser results for every Bool/Num term with <= {b['nodes']} nodes (as expression and predicate), a 29-text family aimed at rewrites that build new parents around existing children (aggregates over sets, implications, negated disjunctions, quantifier splitting, operand flipping), 5 annotated properties, 6 API-built nodes around deliberately untyped shared children. Pool = base + up to 13 sub-objects + objects returned by earlier calls. Alphabet: ~45 calls per expression (printers, hash/==, children/iterate, 4 reference queries, is_fully_typed, cast to 12 type sets, but() same/changed per field, reshape, 2 replacements, simplify, split_and, refactor_reference, the this/var rewrites, constructors of every node class (operators, accessors, sets, ranges, function calls, quantifiers, predicates, events) around the object, schema check), predicate, event and property calls likewise. All sequences of <= {b['depth']} state-changing calls (family: {b['family_depth']}); every call is followed by a deep snapshot comparison of every pool object.",
+        'rule': f"bases: parser results for every Bool/Num term with <= {b['nodes']} nodes (as expression and predicate), a 29-text family aimed at rewrites that build new parents around existing children (aggregates over sets, implications, negated disjunctions, quantifier splitting, operand flipping), 5 annotated properties, 6 API-built nodes around deliberately untyped shared children. Pool = base + up to 13 sub-objects + objects returned by earlier calls. Alphabet: ~45 calls per expression (printers, hash/==, children/iterate, 4 reference queries, is_fully_typed, cast to 12 type sets, but() same/changed per field, reshape, 2 replacements, simplify, split_and, refactor_reference, the this/var rewrites, constructors of every node class (operators, accessors, sets, ranges, function calls, quantifiers, predicates, events) around the object, schema check), predicate, event and property calls likewise. All sequences of <= {b['depth']} state-changing calls (family: {b['family_depth']}); plus histories of length 2 over twins (two equal, separately parsed nodes with different metadata, 14 node kinds): every ordered pair of 26 calls (12 casts, 13 constructors around the node, but(metadata)), the first on one twin and the second on the other; every call is followed by a deep snapshot comparison of every pool object.",
         'bounds': b,
         'exhaustive': True,
         'assumptions': ['metadata is a mutable annotation by design: the harness itself writes one key before the first snapshot'],
